@@ -89,22 +89,40 @@ def _install_basic(e):
                    doc="for a canonical block a/n (host bits of a zero): result <=> the first n bits of ip and a agree, for every n in 0..32"))
 
     # ---- parse_url (C18) -----------------------------------------------------------------------------------------
-    def urlparse_res(c, a):
-        p = c.new_ext("urlparsed")
-        p.attrs["hostname"] = c.fresh(("opt", "str"), "hostname")
-        p.attrs["path"] = c.fresh("str", "path")
-        p.attrs["query"] = c.fresh("str", "query")
-        p.attrs["$port"] = c.fresh(("opt", "int"), "port")
-        p.attrs["$port_bad"] = smt.fresh(smt.Bool, "port_out_of_range")
-        p.attrs["username"] = c.fresh(("opt", "str"), "username")
-        p.attrs["password"] = c.fresh(("opt", "str"), "password")
-        pv = unopt(p.attrs["$port"])
-        c.assume(z3.And(z(pv) >= 0, z(pv) <= 65535))
-        c.ghost["$parsed"] = p
-        return p
-    e.add(Contract("urllib.parse:urlparse", assumed=True, result=urlparse_res, havoc=lambda c, a, old, k: None,
-                   doc="urlparse(rest, scheme='http'): hostname (None if absent), path, query per RFC 3986; .port is None, an int in 0..65535, "
+    def split_res(keep_params):
+        def res(c, a):
+            """RFC 3986 components of the reference after the scheme.  `$rfc_path` is the path component as the RFC defines it
+            (everything between the authority and the first '?' or '#'); urlparse - unlike urlsplit - cuts a trailing
+            ';parameters' of the last segment off its .path and reports it as .params."""
+            p = c.new_ext("urlparsed")
+            p.attrs["hostname"] = c.fresh(("opt", "str"), "hostname")
+            rfc_path = c.fresh("str", "rfc_path")
+            p.attrs["$rfc_path"] = rfc_path
+            if keep_params:
+                p.attrs["path"] = rfc_path
+            else:
+                path, params = c.fresh("str", "path"), c.fresh("str", "params")
+                p.attrs["path"], p.attrs["params"] = path, params
+                SEMI = z3.StringVal(";")
+                c.assume(z3.And(z3.Implies(z3.Length(params.t) == 0, z3.Or(rfc_path.t == path.t, rfc_path.t == z3.Concat(path.t, SEMI))),
+                                z3.Implies(z3.Length(params.t) > 0, rfc_path.t == z3.Concat(path.t, SEMI, params.t)),
+                                z3.Implies(z3.Length(path.t) == 0, z3.Length(rfc_path.t) == 0)))
+            p.attrs["query"] = c.fresh("str", "query")
+            p.attrs["$port"] = c.fresh(("opt", "int"), "port")
+            p.attrs["$port_bad"] = smt.fresh(smt.Bool, "port_out_of_range")
+            p.attrs["username"] = c.fresh(("opt", "str"), "username")
+            p.attrs["password"] = c.fresh(("opt", "str"), "password")
+            pv = unopt(p.attrs["$port"])
+            c.assume(z3.And(z(pv) >= 0, z(pv) <= 65535))
+            c.ghost["$parsed"] = p
+            return p
+        return res
+    e.add(Contract("urllib.parse:urlparse", assumed=True, result=split_res(False), havoc=lambda c, a, old, k: None,
+                   doc="urlparse(rest, scheme='http'): hostname (None if absent), query per RFC 3986; .path is the RFC path WITHOUT the "
+                       "';parameters' of its last segment, which are reported as .params; .port is None, an int in 0..65535, "
                        "or raises ValueError when read (non-numeric / out of range).  The grammar itself is covered by a bounded differential"))
+    e.add(Contract("urllib.parse:urlsplit", assumed=True, result=split_res(True), havoc=lambda c, a, old, k: None,
+                   doc="urlsplit(rest, scheme='http'): like urlparse, but .path is the whole RFC 3986 path (parameters are not split off)"))
 
     def parsed_attr(c, obj, attr, node):
         if attr == "port":
@@ -136,7 +154,7 @@ def _install_basic(e):
         if p is None:
             return z3.BoolVal(False)
         u, scheme = pu_parts(c, a)
-        host, port, path, query = p.attrs["hostname"], p.attrs["$port"], z(p.attrs["path"]), z(p.attrs["query"])
+        host, port, path, query = p.attrs["hostname"], p.attrs["$port"], z(p.attrs["$rfc_path"]), z(p.attrs["query"])
         h, prt, resource, secure = res
         is_wss = scheme == z3.StringVal("wss")
         pt = z3.And(z3.Not(zn(port)), z(unopt(port)) != 0)
